@@ -227,34 +227,15 @@ def run(R):
     # (7), (7b), (8) — cursor bound at the end of the buffer, terminator read inside the buffer: decided semantically by
     # clause_fit_partitions. The structural versions (cursor variable = first argument of the last div_mod_floor call, one
     # unary loop per push site) fired when the unary run was moved into a helper and were withdrawn.
-    # ---- compress_coefficient: layout per unary length
-    cc = S.find("encoding::compress_coefficient")
-    bad = []
-    nk = 0
-    for k in range(0, 95):
-        for sign in (1, -1):
-            lo, hi = (128 * k, 128 * k + 127) if sign == 1 else (-(128 * k + 127), -max(128 * k, 1))
-            st = St()
-            n0 = len(ctx.obl)
-            outs = S.run(cc, [ctx.mk_int(st, lo, hi, i16)], st)
-            record_obligations(R, "C07-asserts", S.obligations_since(n0), site_prefix="[compress_coefficient] ")
-            nk += 1
-            ok = False
-            if outs:
-                r, s2 = outs[0]
-                ln, byte = s2.itv[r.f[0].vid], s2.itv[r.f[1].vid]
-                want_b = (0 if sign == 1 else 128, 127 if sign == 1 else 255)
-                if sign == -1 and k == 0:
-                    want_b = (128, 255)
-                ok = ln == (9 + k, 9 + k) and want_b[0] <= byte[0] and byte[1] <= want_b[1]
-            if not ok:
-                bad.append((k, sign, ln if outs else None, byte if outs else None))
-    R.check(not bad, "C07-layout", "compress_coefficient", f"{nk} coefficient classes: length 9+k bits and byte = sign<<7 | low7 for every unary length k in 0..94",
-            f"classes with a different layout (k, sign, length, byte): {bad[:4]}", key="layout")
-    st = St()
-    n0 = len(ctx.obl)
-    S.run(cc, [ctx.top_int(st, i16)], st)
-    record_obligations(R, "C07-asserts", S.obligations_since(n0), site_prefix="[compress_coefficient, any i16] ")
+    # ---- layout of the writer, per coefficient class, through `compress` itself (clause_layout_compress below); the helper
+    # compress_coefficient, where it exists as a function, only contributes its panic obligations for every i16
+    cc = [i for i in S.prog.inst if i.local and i.body is not None and i.name.endswith("encoding::compress_coefficient")]
+    if cc:
+        st = St()
+        n0 = len(ctx.obl)
+        S.run(cc[0], [ctx.top_int(st, i16)], st)
+        record_obligations(R, "C07-asserts", S.obligations_since(n0), site_prefix="[compress_coefficient, any i16] ")
+    clause_layout_compress(R)
     # ---- compress: obligations on the domain, and budget boundary instances
     comp = S.find("encoding::compress")
     st = St()
@@ -265,6 +246,8 @@ def run(R):
     def assumed(o):
         if o.fn.endswith("encoding::compress") and o.kind in ("BoundsCheck", "Overflow"):
             return PREFIX_SUM
+        if o.kind in ("BoundsCheck", "Overflow") and o.fn.startswith("falcon_rust::encoding::") and any(p_.endswith("encoding::compress") for p_ in o.ctxpath):
+            return PREFIX_SUM          # the same byte indexing, moved into a local helper of compress
         if "arith.rs" in o.span and o.kind == "Overflow":
             return PREFIX_SUM
         return None
@@ -289,6 +272,74 @@ def run(R):
     clause_padding_partitions(R)
     clause_negzero_partitions(R)
     clause_fit_partitions(R)
+
+
+def clause_layout_compress(R):
+    """the writer's bit layout, for every coefficient class (unary length k = 0..94, both signs; the seven low bits are
+    arbitrary): compress(&[c], ceil((9+k)/8)) returns Some(bytes) with bytes[0] = sign<<7 | low7 and the remaining bytes
+    EXACTLY  0^k 1 0..0 ; with one byte less it returns None; and compress(&[c, 77], ..) places the second coefficient's
+    nine bits 0 1001101 1 immediately after the first terminator (every bit alignment occurs as k varies). Independent of
+    how compress is organised (helper function or not)."""
+    S = Session()
+    ctx = S.ctx
+    ctx.hooks["may_panic"] = lambda inst: False
+    ctx.hooks["exact_collect_max"] = 8
+    ctx.hooks["exact_int_sum"] = True
+    ctx.hooks["kbits_eager"] = True
+    comp = S.find("encoding::compress")
+    i16, usz = S.ty("i16"), ctx.usize_ty()
+    bad, nk = [], 0
+
+    def out_bytes(outs):
+        """(Some-bytes as list of intervals | None, None reachable?)"""
+        some, none = None, False
+        for r, s2 in outs:
+            if type(r) is not En:
+                continue
+            if 0 in r.vs:
+                none = True
+            if 1 in r.vs:
+                sq = r.vs[1][0]
+                n = s2.const(sq.len)
+                if n is not None and sq.head and len(sq.head) >= n:
+                    some = [s2.itv[sq.head[i].vid] for i in range(n)]
+                else:
+                    some = "unknown"
+        return some, none
+    second = "0" + format(77, "07b") + "1"
+    for k in range(0, 95):
+        for sign in (1, -1):
+            lo, hi = (128 * k, 128 * k + 127) if sign == 1 else (-(128 * k + 127), -max(128 * k, 1))
+            b0 = (0, 127) if sign == 1 else (128, 255)
+            for two in (False, True):
+                bits = "0" * k + "1" + (second if two else "")
+                L = 1 + (len(bits) + 7) // 8
+                bits = bits + "0" * (8 * (L - 1) - len(bits))
+                want = [b0] + [(int(bits[8 * j:8 * j + 8], 2),) * 2 for j in range(L - 1)]
+                st = St()
+                elems = {0: ctx.mk_int(st, lo, hi, i16)}
+                if two:
+                    elems[1] = ctx.const_int(st, 77, i16)
+                v = S.cell(st, "v", Sq(ctx.mk_int(st, -12159, 12159, i16), ctx.const_int(st, len(elems), usz), elems))
+                outs = S.run(comp, [v, ctx.const_int(st, L, usz)], st)
+                nk += 1
+                some, none = out_bytes(outs)
+                ok = isinstance(some, list) and len(some) == L and b0[0] <= some[0][0] and some[0][1] <= b0[1] and some[1:] == want[1:]
+                if not ok:
+                    bad.append(f"k={k} sign={sign} {'two coefficients' if two else 'one coefficient'}: bytes {some if not isinstance(some, list) else some[:6]}, expected {want[:6]}")
+                if not two:
+                    st = St()
+                    v = S.cell(st, "v", Sq(ctx.mk_int(st, -12159, 12159, i16), ctx.const_int(st, 1, usz), {0: ctx.mk_int(st, lo, hi, i16)}))
+                    outs = S.run(comp, [v, ctx.const_int(st, L - 1, usz)], st)
+                    nk += 1
+                    some2, _ = out_bytes(outs)
+                    if some2 is not None and 8 * (L - 1) < 9 + k:
+                        bad.append(f"k={k} sign={sign}: {9 + k} bits are written into {L - 1} byte(s)")
+    R.check(not bad, "C07-layout", "compress (one and two coefficients, every coefficient class)",
+            f"{nk} abstract runs: byte 0 = sign<<7 | low7, then 0^k 1, then the next coefficient or zero padding, exactly; one byte less is refused",
+            f"{len(bad)} class(es) with a different layout: {bad[:3]}", key="layout")
+    R.floor("layout runs of compress", nk, 570)
+    R.analysed.setdefault("unsupported", []).extend(S.unsupported[:5])
 
 
 def clause_padding_partitions(R):
